@@ -216,7 +216,8 @@ func (fr *frame) store(a *addr, v T, st *state, pos string) {
 	case aHeap:
 		s := vc.sortOf(a.typ)
 		h := vc.heapPtr(s)
-		fr.frameCheck("frame.store", a.ref, st, pos)
+		// a store through the nil pointer cannot happen (it panics first)
+		fr.frameCheck("frame.store", a.ref, st, pos, fmt.Sprintf("(= %s 0)", a.ref))
 		vc.heapSet(st, h, fmt.Sprintf("(store %s %s %s)", vc.heapGet(st, h), a.ref, v.S))
 	case aArrPtr:
 		arr := unalias(a.typ).Underlying().(*types.Array)
@@ -227,7 +228,12 @@ func (fr *frame) store(a *addr, v T, st *state, pos string) {
 	case aElem:
 		s := vc.sortOf(a.typ)
 		h := vc.heapArr(s)
-		fr.frameCheck("frame.store", a.ref, st, pos)
+		if a.sl != "" {
+			// a store through a slice without capacity cannot happen (the index check panics first)
+			fr.frameCheck("frame.store", a.ref, st, pos, fmt.Sprintf("(= (s_cap %s) 0)", a.sl))
+		} else {
+			fr.frameCheck("frame.store", a.ref, st, pos)
+		}
 		cur := vc.heapGet(st, h)
 		vc.heapSet(st, h, fmt.Sprintf("(store %s %s (store (select %s %s) %s %s))", cur, a.ref, cur, a.ref, a.pos, v.S))
 		if len(vc.capStack) == 0 {
